@@ -205,6 +205,16 @@ class SimSolver(pulp.LpSolver):
         if loose is not None:
             chosen = loose
             events.fired("api.ok_within_requested_gap")
+        if env.stops_at_requested_limit(getattr(self, "timeLimit", None), fault.get("tie", 0), info):
+            inc = zero_one.feasible_nonoptimal(model, result, fault.get("tie", 0))
+            if inc is not None:
+                for v in variables:
+                    v.varValue = float(inc[keyof[id(v)]])
+                lp.assignStatus(pulp.LpStatusOptimal, pulp.LpSolutionIntegerFeasible)
+                events.fired("api.stopped_at_requested_time_limit")
+                info["stopped_at_requested_limit"] = True
+                env.end_solve(info, delivered=False, how="requested-time-limit")
+                return lp.status
         for v in variables:
             v.varValue = float(chosen[keyof[id(v)]])
         lp.assignStatus(pulp.LpStatusOptimal)
@@ -386,6 +396,21 @@ class FakeCbcProc:
             chosen, value = zeros, 0
         wrong = {v: 1 - chosen[v] for v in model.names}
         delivered = False
+        if kind == "ok" and result["status"] == "optimal" and "-sec" in argv and env.stops_at_requested_limit(
+                argv[argv.index("-sec") + 1] if argv.index("-sec") + 1 < len(argv) else None, fault.get("tie", 0), info):
+            inc = zero_one.feasible_nonoptimal(model, result, fault.get("tie", 0))
+            if inc is not None:
+                head = "Stopped on time - objective value %.8f\n" % float(model.evaluate(inc))
+                body = _cbc_sol_lines(model, inc)
+                with open(sol, "w") as f:
+                    f.write(head)
+                    f.writelines(body)
+                events.fired("cbc.stopped_at_requested_time_limit")
+                events.log("wrote", ["sol", len(head) + sum(map(len, body))])
+                events.log("wait", 0)
+                info["stopped_at_requested_limit"] = True
+                env.end_solve(info, delivered=False, how="requested-time-limit")
+                return 0
         if kind == "ok":
             if result["status"] == "optimal":
                 rel, ab = _cbc_gap_options(argv)
@@ -509,6 +534,13 @@ class FakeHighsProc:
         delivered = False
         write_solution = None
         rows_marker = True
+        cli0 = dict(a[2:].split("=", 1) for a in argv if a.startswith("--") and "=" in a)
+        limit = cli0.get("time_limit", opts.get("time_limit"))
+        if kind == "ok" and chosen is not None and env.stops_at_requested_limit(limit, fault.get("tie", 0), info) and \
+                zero_one.feasible_nonoptimal(model, result, fault.get("tie", 0)) is not None:
+            kind = "timelimit_feasible"
+            info["stopped_at_requested_limit"] = True
+            events.fired("highs.stopped_at_requested_time_limit")
         if kind in ("ok", "sol_unreadable") and chosen is not None:
             status, solstatus = "Optimal", "feasible"
             cli = dict(a[2:].split("=", 1) for a in argv if a.startswith("--") and "=" in a)
@@ -544,7 +576,8 @@ class FakeHighsProc:
             status, solstatus = "Time limit reached", "feasible"
             write_solution = inc
             value = model.evaluate(inc)
-            delivered = True
+            # an incumbent after a limit the code under test itself asked for is not a delivered optimum
+            delivered = not info.get("stopped_at_requested_limit")
             events.fired("highs.timelimit_feasible." + info["incumbent"])
         else:
             raise HarnessError("unknown highs fault kind %r" % kind)
@@ -751,6 +784,21 @@ class SimEnv:
         info["nvars"] = len(model.names)
         info["nrows"] = len(model.rows)
         return result
+
+    def stops_at_requested_limit(self, limit, tie, info):
+        """The code under test asked the solver to give up after `limit` seconds (it does not today).  On a slow
+        machine, or for a big enough input, a real solver then stops at the limit with whatever feasible assignment
+        it has - and pulp still reports status Optimal (solution status 'integer feasible').  The simulated solver
+        does so for every other tie-break value; the request is recorded either way."""
+        if limit is None:
+            return False
+        try:
+            if float(limit) <= 0:
+                return False
+        except (TypeError, ValueError):
+            return False
+        info["requested_time_limit"] = str(limit)
+        return tie % 2 == 0
 
     def within_gap(self, model, result, rel, ab, tie, info):
         """The code under test asked the solver to stop within a gap (it does not today): the simulated solver
